@@ -280,6 +280,13 @@ func (p *prop) Generate(rng *core.Rand, tier string, emit func(string)) {
 	for _, l := range []string{"cf . 0 . .", "cf _ 0 _ _", "cf . 3 . .", "cf . 0 .", "cf zz 0 . .", "cf 2b 0 . ."} {
 		emit(l)
 	}
+	// PROXY protocol listener wrapper: who may say what the remote address is
+	for c := 0; c < n/8; c++ {
+		emit(genPP(rng))
+	}
+	for _, l := range []string{"pp . . - 746370 - - .", "pp . . - 746370 312e322e332e343a35 - 312e322e332e34:312e322e332e34:-:-:0000", "pp . . 2d 746370 - - .", "pp . . - 746370 - zz .", "pp . . - 746370 - -"} {
+		emit(l)
+	}
 	// a malformed stream: both sides must answer bad-op
 	for _, l := range []string{
 		"", "req", "nope 1 2 3", "req nil nil 0 . 000 - 0 - . . 0 0 0 0 .",
